@@ -74,6 +74,9 @@ class FunctionEvaluations(ResultField):
         self.variables = _immutable_copy(self.variables)
         self.objectives = _immutable_copy(self.objectives)
         self.constraints = _immutable_copy(self.constraints)
+        self.evaluation_info = {
+            key: _immutable_copy(value) for key, value in self.evaluation_info.items()
+        }
 
     @classmethod
     def create(
